@@ -112,7 +112,7 @@ func runC10(e *Env) {
 		"sequential histories: sync.Pool hands the same *Context back almost always (measured, not assumed)",
 		"a fresh identical router is the specification of 'pristine'",
 	}
-	e.RunCases("histories", e.N(2500, 120000), 0, c10Case)
+	e.RunCases("histories", e.N(2500, 400000), 0, c10Case)
 	e.Require("ctx.reused", 10000)
 	e.Require("ctx.reused_after_dirty", 5000)
 	e.Require("dirty.replace-resp", 300)
